@@ -186,6 +186,7 @@ func timedOracle(name string, check func(cScenario, cResult) (string, string)) f
 		run := func(sc cScenario, tags []string) {
 			sc.probe = true
 			line := sc.line()
+			cliNoteLine(line)
 			out := runTimed(sc)
 			res.Evaluations++
 			if len(sc.evs) > 0 || len(out.txs) > 1 {
@@ -237,6 +238,6 @@ func timedOracle(name string, check func(cScenario, cResult) (string, string)) f
 }
 
 func init() {
-	registerOracle(&Oracle{Name: "c11", Run: timedOracle("c11", checkC11)})
-	registerOracle(&Oracle{Name: "c12", Run: timedOracle("c12", checkC12)})
+	registerOracle(&Oracle{Name: "c11", Run: cliCrashGuard("c11", timedOracle("c11", checkC11))})
+	registerOracle(&Oracle{Name: "c12", Run: cliCrashGuard("c12", timedOracle("c12", checkC12))})
 }
